@@ -43,5 +43,6 @@ def run(chk, db):
         'Truncation = some reader primitive is asked for more than remains. Each primitive of the five library readers is shown to fail '
         'in that situation (symbolic effect summaries against the role specification; iostream and read(2) behaviour is modelled), every '
         'decoder demands its bytes only through those primitives (including skipped entries and padding), and the status discipline shows '
-        'the failure reaches the caller as a failure.')
+        'the failure reaches the caller as a failure.'
+        ' Every documented part of an encoding (elements, members, variant payload incl. NIL) must be demanded from the reader (ELT.r/RST.r).')
     chk.assumptions = ['iostream: a short read()/ignore() sets eofbit or yields a short gcount(); read(2) returns 0 at end of data']
